@@ -534,6 +534,10 @@ package protocol
 //@   assert_call BlockCipher.Decrypt: [C06 C05] ghost(shown) == 1
 //@   assert_at "return seg, addr, nil": u.isClient || (!isNewSessionReplay && blockCipher != nil)
 //@   ensures seg != nil && !old(u.isClient) ==> seg.block != nil
+//@   // what the event loop relies on (C10): without an error it is handed either nothing at all
+//@   // (segment and address both nil: a read timeout) or a segment with its metadata - never an
+//@   // address without a segment, which it would dereference
+//@   ensures [C10] err == nil ==> (seg == nil && addr == nil) || (seg != nil && seg.metadata != nil)
 //@   loop 1:
 //@     invariant u.isClient == old(u.isClient) && (u.isClient ==> u.block != nil)
 //@
@@ -556,7 +560,7 @@ package protocol
 //@ // extended or re-padded copy of a genuine datagram is refused - and a payload is
 //@ // returned only from a successful DecryptWithNonce of exactly the announced bytes.
 //@ func (u *PacketUnderlay) parseSessionSegment(ss *sessionStruct, nonce []byte, remaining []byte, blockCipher cipher.BlockCipher) (seg *segment, err error)
-//@   property C04 C05 C10
+//@   property C04 C05 C10 C09
 //@   mode int
 //@   noframe
 //@   preserves ghost(wr), ghost(dsent), PacketUnderlay.baseUnderlay.isClient, PacketUnderlay.block, sessionStruct.payloadLen, sessionStruct.suffixLen
@@ -565,9 +569,14 @@ package protocol
 //@   ensures err == nil && ss.payloadLen == 0 ==> len(remaining) == int(ss.suffixLen)
 //@   ensures err == nil ==> seg != nil && seg.block == nil && typeof(seg.metadata) == typeid(*sessionStruct) && payload(seg.metadata, *sessionStruct) == ss
 //@   ensures err != nil ==> seg == nil
+//@   // completeness (C09): a datagram of exactly the announced size whose payload authenticates is
+//@   // accepted - padding of any length from 0 to 255 included (suffix length 0 is well-formed)
+//@   sets ghost(decfail) = 0
+//@   ghost_call BlockCipher.DecryptWithNonce: ghost(decfail) = ite(result1 != nil, 1, 0)
+//@   ensures [C09] ghost(decfail) == 0 && ((old(ss.payloadLen) > 0 && len(remaining) == int(old(ss.payloadLen)) + 16 + int(old(ss.suffixLen))) || (old(ss.payloadLen) == 0 && len(remaining) == int(old(ss.suffixLen)))) ==> err == nil
 //@
 //@ func (u *PacketUnderlay) parseDataAckSegment(das *dataAckStruct, nonce []byte, remaining []byte, blockCipher cipher.BlockCipher) (seg *segment, err error)
-//@   property C04 C05 C10
+//@   property C04 C05 C10 C09
 //@   mode int
 //@   noframe
 //@   preserves ghost(wr), ghost(dsent), PacketUnderlay.baseUnderlay.isClient, PacketUnderlay.block, dataAckStruct.payloadLen, dataAckStruct.suffixLen, dataAckStruct.prefixLen
@@ -576,6 +585,10 @@ package protocol
 //@   ensures err == nil && das.payloadLen == 0 ==> len(remaining) == int(das.prefixLen) + int(das.suffixLen)
 //@   ensures err == nil ==> seg != nil && seg.block == nil && typeof(seg.metadata) == typeid(*dataAckStruct) && payload(seg.metadata, *dataAckStruct) == das
 //@   ensures err != nil ==> seg == nil
+//@   // completeness (C09), for segments that are not low-entropy encoded
+//@   sets ghost(decfail) = 0
+//@   ghost_call BlockCipher.DecryptWithNonce: ghost(decfail) = ite(result1 != nil, 1, 0)
+//@   ensures [C09] ghost(decfail) == 0 && old(das.baseStruct.protocol) != uint8(dataClientToServerLowEntropy) && old(das.baseStruct.protocol) != uint8(dataServerToClientLowEntropy) && ((old(das.payloadLen) > 0 && len(remaining) == int(old(das.prefixLen)) + int(old(das.payloadLen)) + 16 + int(old(das.suffixLen))) || (old(das.payloadLen) == 0 && len(remaining) == int(old(das.prefixLen)) + int(old(das.suffixLen)))) ==> err == nil
 //@
 //@ // TCP framing (C01, C04): after the metadata, exactly the announced number of bytes is
 //@ // consumed from the connection - encrypted payload (+16 byte tag) if any, then padding -
@@ -594,6 +607,7 @@ package protocol
 //@   ensures err != nil ==> seg == nil
 //@   // every failure carries an error type the event loop knows how to handle (it panics on UNKNOWN_ERROR)
 //@   ensures [C10] err != nil ==> typeof(err) == typeid(stderror.TypedError) && payload(err, stderror.TypedError).errType != stderror.UNKNOWN_ERROR && payload(err, stderror.TypedError).errType != stderror.NO_ERROR
+//@   ensures [C10] err == nil && seg != nil ==> seg.metadata != nil
 //@
 //@ func (t *StreamUnderlay) readDataAckSegment(das *dataAckStruct) (seg *segment, err error)
 //@   property C01 C04 C10
@@ -807,7 +821,7 @@ package protocol
 //@ // configured maxima for its position (prefix: middle, suffix: end; 0 means none), and
 //@ // what is handed to WriteTo is header + prefix + payload(+tag) + suffix.
 //@ func (u *PacketUnderlay) writeOneSegment(seg *segment, addr net.Addr) (err error)
-//@   property C16 C14 C01 C04
+//@   property C16 C14 C01 C04 C02
 //@   mode int
 //@   partial
 //@   posts_only
@@ -830,6 +844,11 @@ package protocol
 //@   assert_at "copy(dataToSend[offset:], padding)": [C01 C04] offset + len(padding) == len(dataToSend)
 //@   assert_at "offset += wirePayloadLen": [C01 C04] offset == encryptedMetadataLen + len(padding1)
 //@   assert_at "copy(dataToSend[offset:], padding2)": [C01 C04] offset + len(padding2) == len(dataToSend)
+//@   // loss recovery (C02): a segment that cannot be encrypted yet (the session's cipher is not
+//@   // installed) is refused with an error that WRAPS stderror.ErrNotReady - Session.output
+//@   // recognises exactly that and keeps the segment for retransmission instead of closing the
+//@   // session. The wrapping verb is part of the format string (text-level site check).
+//@   assert_at "please try again later: %w": [C02] true
 //@   assert_call BlockCipher.EncryptWithNonce: [C01 C04] baseof(arg1) == baseof(dataToSend) && offsetof(arg1) == offsetof(dataToSend) && len(arg1) == 24 && arg2 == seg.payload
 //@   assert_call net.PacketConn.WriteTo: [C14] typeof(seg.metadata) == typeid(*sessionStruct) && len(seg.payload) == int(payload(seg.metadata, *sessionStruct).payloadLen) && len(seg.payload) + 88 <= u.mtu ==> len(arg0) <= u.mtu
 //@   assert_call net.PacketConn.WriteTo: [C14] typeof(seg.metadata) == typeid(*dataAckStruct) && (payload(seg.metadata, *dataAckStruct).baseStruct.protocol == uint8(dataClientToServerLowEntropy) || payload(seg.metadata, *dataAckStruct).baseStruct.protocol == uint8(dataServerToClientLowEntropy) || (len(seg.payload) == int(payload(seg.metadata, *dataAckStruct).payloadLen) && len(seg.payload) + 88 <= u.mtu)) ==> len(arg0) <= u.mtu
